@@ -365,36 +365,46 @@ Definition blocked (r : repo) (rn : run) (t : target) : bool :=
   existsb (fun l => mem l (rn_failed rn) || match find_target (r_targets r) l with Some _ => false | None => true end)
           (label_srcs (t_srcs t)).
 
-Definition build_one (cache_on : bool) (r : repo) (rn : run) (t : target) : run :=
+Definition tmp_ins (ins : list (path * node)) : list (str * node) := map (fun pn => (snd (fst pn), snd pn)) ins.
+
+(* the command runs (build_step.go:317-419): prepareSources, build, StoreTargetMetadata, moveOutputs,
+   writeRuleHash, storeInCache; on error Build() removes the outputs (build_step.go:73) *)
+Definition run_action (cache_on : bool) (r : repo) (rn : run) (t : target) (rk : rkey) : run :=
   let st := rn_st rn in
-  if blocked r rn t then fail_run rn t st else
-  match t_kind t with
-  | Filegroup => build_filegroup r t rn
-  | k =>
-      if negb (needs_build r st t) then rn                        (* "Unchanged", nothing touched *)
-      else
-        match source_key r st t with
-        | None => fail_run rn t (remove_outputs t st)             (* a source does not exist *)
-        | Some sk =>
-            let rk := (t_defkey t, sk) in
-            match (if cache_on then s_cache st (t_label t) rk else None) with
-            | Some cached =>                                      (* retrieveArtifacts: "Cached" *)
-                mkRun (set_meta (fold_left (restore_output rk t) cached st) (t_label t)) (rn_log rn) (rn_failed rn)
-            | None =>
-                match gather (read r st) (all_paths r t) with
-                | None => fail_run rn t (remove_outputs t st)
-                | Some ins =>
-                    match act k (outputs t) (map (fun pn => (snd (fst pn), snd pn)) ins) with
-                    | None => mkRun (remove_outputs t st) (t_label t :: rn_log rn) (t_label t :: rn_failed rn)
-                    | Some news =>
-                        let st1 := fold_left (move_output rk t) news (set_meta st (t_label t)) in
-                        let st2 := if cache_on then set_cache st1 (t_label t) rk (current_outs t st1) else st1 in
-                        mkRun st2 (t_label t :: rn_log rn) (rn_failed rn)
-                    end
-                end
-            end
-        end
+  match gather (read r st) (all_paths r t) with
+  | None => fail_run rn t (remove_outputs t st)
+  | Some ins =>
+      match act (t_kind t) (outputs t) (tmp_ins ins) with
+      | None => mkRun (remove_outputs t st) (t_label t :: rn_log rn) (t_label t :: rn_failed rn)
+      | Some news =>
+          let st1 := fold_left (move_output rk t) news (set_meta st (t_label t)) in
+          let st2 := if cache_on then set_cache st1 (t_label t) rk (current_outs t st1) else st1 in
+          mkRun st2 (t_label t :: rn_log rn) (rn_failed rn)
+      end
   end.
+
+(* buildTarget for everything but filegroups *)
+Definition build_rule (cache_on : bool) (r : repo) (rn : run) (t : target) : run :=
+  let st := rn_st rn in
+  if negb (needs_build r st t) then rn                           (* "Unchanged": nothing is touched *)
+  else
+    match source_key r st t with
+    | None => fail_run rn t (remove_outputs t st)                (* a source does not exist *)
+    | Some sk =>
+        let rk := (t_defkey t, sk) in
+        match (if cache_on then s_cache st (t_label t) rk else None) with
+        | Some cached =>                                         (* retrieveArtifacts: "Cached" *)
+            mkRun (set_meta (fold_left (restore_output rk t) cached st) (t_label t)) (rn_log rn) (rn_failed rn)
+        | None => run_action cache_on r rn t rk
+        end
+    end.
+
+Definition is_filegroup (t : target) : bool := match t_kind t with Filegroup => true | _ => false end.
+
+Definition build_one (cache_on : bool) (r : repo) (rn : run) (t : target) : run :=
+  if blocked r rn t then fail_run rn t (rn_st rn)
+  else if is_filegroup t then build_filegroup r t rn
+  else build_rule cache_on r rn t.
 
 (* ------------------------------------------------------------------------------------------ *)
 (* plz build <req> *)
@@ -422,6 +432,33 @@ Definition logged (r : repo) (rn : run) : list str :=
 Definition out_of (st : store) (t : target) (o : str) : option node := option_map e_node (s_outs st (out_rel t o)).
 Definition outs_of (st : store) (t : target) : list (str * option node) :=
   map (fun o => (o, out_of st t o)) (outputs t).
+
+(* ------------------------------------------------------------------------------------------ *)
+(* well-formed repositories (hypotheses of the theorems; executable) *)
+
+Fixpoint nodup_str (l : list str) : bool :=
+  match l with [] => true | x :: r => negb (mem x r) && nodup_str r end.
+
+(* every label a target refers to is defined earlier in the list *)
+Fixpoint topo (seen : list str) (ts : list target) : bool :=
+  match ts with
+  | [] => true
+  | t :: r => forallb (fun l => mem l seen) (label_srcs (t_srcs t)) && topo (t_label t :: seen) r
+  end.
+
+Definition has_outs (t : target) : bool :=
+  is_filegroup t || match t_outs t with [] => false | _ => true end.
+
+(* unique labels, dependencies first, no two targets write the same path, rules declare an output *)
+Definition wf_repo (r : repo) : bool :=
+  nodup_str (map t_label (r_targets r))
+  && topo [] (r_targets r)
+  && nodup_str (flat_map out_rels (r_targets r))
+  && forallb has_outs (r_targets r).
+
+(* no two sources of a target land on the same temporary path (so IterSources drops nothing) *)
+Definition distinct_srcs (r : repo) : bool :=
+  forallb (fun t => nodup_str (map snd (all_paths r t))) (r_targets r).
 
 (* ------------------------------------------------------------------------------------------ *)
 (* histories and correspondence cases *)
